@@ -127,3 +127,7 @@ pub mod types;
 
 pub use market::Market;
 pub use orderbook::{OrderBook, OrderError};
+
+#[cfg(any(kani, verif_replay))]
+#[path = "/verif/harness/book_lib.rs"]
+pub mod verif;
